@@ -90,6 +90,36 @@ fn codec_histories(s: &mut Session, rng: &mut Rng, thorough: bool) {
             }
             s.mark_nontrivial();
         }
+        // replies of two server sessions (the server was restarted, or two servers behind one address) recorded and sent
+        // again alternately: whatever the server session, an id that was delivered is never delivered again
+        s.begin_case(&format!("codec-replay-two-server-sessions:{}", cipher));
+        let cfg = random_cfg(rng, cipher, false);
+        let (uc, us) = (s.fresh("uc"), s.fresh("us"));
+        s.run(&format!("ssu.client {} cipher={} password={}", uc, cipher, cfg.client_password));
+        s.run(&format!("ssu.server {} cipher={} password={} users=-", us, cipher, cfg.server_password));
+        let csid = 1 + rng.below(1 << 50);
+        s.run(&format!("ssu.setid {} csid={}", uc, csid));
+        let (s1, s2) = (rng.next(), rng.next());
+        let mut recorded = vec![];
+        for i in 0..6u64 {
+            for (ssid, pid) in [(s1, 100 + i), (s2, 3000 + i)] {
+                let w = timed(s, &format!("ssu.senc {} csid={} ssid={} pid={} addr=4:01020304:53 payload={}", us, csid, ssid, pid, hex(&rng.bytes(3))));
+                let r = timed(s, &format!("ssu.cdec {} {}", uc, w));
+                if !r.starts_with("ok") {
+                    s.oracle_fail("codec-window", &format!("a fresh reply (id {}) was not delivered: {}", pid, &r[..r.len().min(40)]));
+                }
+                recorded.push((pid, w));
+            }
+        }
+        for round in 0..2 {
+            for (pid, w) in &recorded {
+                let r = timed(s, &format!("ssu.cdec {} {}", uc, w));
+                if r.starts_with("ok") {
+                    s.oracle_fail("codec-window", &format!("replay round {}: the recorded reply with id {} was delivered a second time", round, pid));
+                }
+            }
+        }
+        s.mark_nontrivial();
     }
 }
 
